@@ -715,5 +715,504 @@ Section Model.
       end_spec n (map g (seq 0 n)) =
       map (fun mp => CPS (fst mp) (snd mp)) (map (fun x => ((n - x - 1)%nat, g x)) (seq 0 n)).
     Proof. unfold end_spec. rewrite combine_seq_map, !map_map. reflexivity. Qed.
+  
+    (* ---- Reck.map with the default (constant) error model reproduces U ---- *)
+    Theorem reck_map_default fuel n U hin hout seed tok ans endo g1 g2 g3 r0 hh l0 p0 dc :
+      e_bsamp E r0 = (hh, hh) -> hh * hh + hh * hh = 1 -> e_cis E p0 = k1 co ->
+      in01 o r0 = true -> in01 o l0 = true -> kgtb o l0 0 = false ->
+      seed <> SeedBad ->
+      reck_decomposition o E n (tab co n (flip n U)) ans endo = Ok dc ->
+      (forall a b, a < n -> b < n -> a <> b -> dc_nulled dc a b = k0 co) ->
+      (forall a, a < n -> dc_nulled dc a a = e_cis E (endo a)) ->
+      Forall2 (fun x y : nat * Z => snd x = snd y) hin hout ->
+      let em := mkEm (mkDobj (DConst r0) g1) (mkDobj (DConst l0) g2) (mkDobj (DConst p0) g3) in
+      reck_map o E fuel em n U hin hout seed tok ans endo
+        = Ok (mkCirc n (default_spec n r0 p0 dc) hin hout, em) /\
+      cmeq n (compile o E n (default_spec n r0 p0 dc)) U.
+    Proof.
+      intros Hbs Hh Hp0 Hr Hl Hl0 Hseed Hdc Hoff Hdiag Hher em.
+      split.
+      - unfold reck_map. rewrite set_random_seed_const by (try assumption; reflexivity).
+        cbn [bind]. rewrite Hdc. cbn [bind]. unfold em; cbn [em_phase em_bs em_loss].
+        rewrite program_steps_const. cbn [bind fst snd]. rewrite program_ends_const. cbn [bind fst snd].
+        rewrite build_cells_const by assumption. cbn [bind fst snd].
+        rewrite zip_heralds_ok by assumption. cbn [bind fst snd]. reflexivity.
+      - apply reck_decomposition_ok in Hdc as [Edc _].
+        set (U' := tab co n (flip n U)) in *.
+        set (lp := decomp_loop o E n ans (reck_steps n) 0%nat U') in *.
+        assert (Erecs : dc_recs dc = fst lp) by (rewrite Edc; reflexivity).
+        assert (Eend : dc_end dc = map endo (seq 0 n)) by (rewrite Edc; reflexivity).
+        assert (Enul : dc_nulled dc = snd lp) by (rewrite Edc; reflexivity).
+        set (Ts := map T_of (fst lp)).
+        assert (HD : dc_nulled dc = nulled (o:=co) n U' Ts).
+        { rewrite Enul. unfold lp, Ts. apply decomp_loop_nulled. }
+        assert (Hb : Forall (fun r => (nr_i r + nr_j r + 2 <= n)%nat) (fst lp)) by apply decomp_loop_bound.
+        assert (HT : Forall (lunit co n) Ts).
+        { unfold Ts. apply Forall_forall. intros T HT. apply in_map_iff in HT as [r [<- Hr']].
+          rewrite Forall_forall in Hb. specialize (Hb r Hr'). apply T_of_unitary. lia. }
+        pose proof (nulled_rebuild (o:=co) n Ts U' HT) as Hreb. rewrite <- HD in Hreb.
+        unfold default_spec, compile. rewrite !compile_from_app. rewrite Erecs, Eend, map_map.
+        rewrite end_spec_seq.
+        intros i j Hi Hj. rewrite compile_ps_list by assumption.
+        rewrite rowfac_seq by lia.
+        replace (0 <=? n - 1 - i) with true by (symmetry; apply Nat.leb_le; lia).
+        replace (n - 1 - i <? 0 + n) with true by (symmetry; apply Nat.ltb_lt; lia).
+        cbn [andb dphase ph_amp]. rewrite Hp0, cmul_1_r.
+        change (compile_from o E n (compile_from o E n (mid co) (flat_map (dcell n r0) (map (dprec p0) (fst lp))))
+                  [CBarrier (seq 0 n)])
+          with (compile o E n (flat_map (dcell n r0) (map (dprec p0) (fst lp)))).
+        rewrite (compile_cells r0 hh p0 Hbs Hh Hp0 n (fst lp) Hb) by assumption.
+        fold Ts. unfold flip at 1.
+        (* U i j = U' (n-1-i) (n-1-j) = (D . P) (n-1-i) (n-1-j) = D_ii' . P i' j' *)
+        transitivity (U' (n - 1 - i)%nat (n - 1 - j)%nat).
+        2:{ unfold U'. rewrite tab_spec by lia. unfold flip. f_equal; lia. }
+        rewrite (Hreb (n - 1 - i)%nat (n - 1 - j)%nat) by lia.
+        unfold Mat.mmul. rewrite (sumn_single (o:=co) n (n - 1 - i)%nat) by
+          (try lia; intros k Hk Hne; rewrite Hoff by (try lia; auto); ring).
+        rewrite Hdiag by lia. reflexivity.
+    Qed.
   End WithEnv.
 End Model.
+
+(* Part 3: ErrorModel._set_random_seed as a state machine over generator states. *)
+Section Seed.
+  Context {K : Type}.
+  Notation dobj := (dobj (K:=K)).
+  Notation emodel := (emodel (K:=K)).
+
+  (* objects built by the constructors: a Constant carries the placeholder generator *)
+  Definition wf_dobj (x : dobj) : Prop := has_rng (d_dist x) = false -> d_rng x = norng.
+  Definition wf_em (em : emodel) : Prop :=
+    wf_dobj (em_bs em) /\ wf_dobj (em_loss em) /\ wf_dobj (em_phase em).
+  Definition same_dists (a b : emodel) : Prop :=
+    d_dist (em_bs a) = d_dist (em_bs b) /\ d_dist (em_loss a) = d_dist (em_loss b) /\
+    d_dist (em_phase a) = d_dist (em_phase b).
+
+  Lemma reseed_determined (E : env (K:=K)) s tok1 tok2 (x y : dobj) k :
+    wf_dobj x -> wf_dobj y -> d_dist x = d_dist y ->
+    reseed E (Some s) tok1 x k = reseed E (Some s) tok2 y k.
+  Proof.
+    intros Hx Hy Hd. unfold reseed. rewrite <- Hd.
+    destruct (has_rng (d_dist x)) eqn:Hr; [reflexivity|].
+    destruct x as [dx gx], y as [dy gy]. unfold wf_dobj in *. simpl in *. subst dy.
+    rewrite Hx, Hy by assumption. reflexivity.
+  Qed.
+
+  (* after _set_random_seed s (s an integer) the whole error-model state is a
+     function of the distributions and s: prior generator states, prior draws
+     and entropy tokens do not matter *)
+  Theorem set_random_seed_determined (E : env (K:=K)) em1 em2 s tok1 tok2 :
+    wf_em em1 -> wf_em em2 -> same_dists em1 em2 ->
+    set_random_seed E em1 (SeedInt s) tok1 = set_random_seed E em2 (SeedInt s) tok2.
+  Proof.
+    intros (A1 & A2 & A3) (B1 & B2 & B3) (D1 & D2 & D3). unfold set_random_seed. simpl.
+    rewrite (reseed_determined E s tok1 tok2 (em_bs em1) (em_bs em2) 0) by assumption.
+    rewrite (reseed_determined E s tok1 tok2 (em_loss em1) (em_loss em2)) by assumption.
+    rewrite (reseed_determined E s tok1 tok2 (em_phase em1) (em_phase em2)) by assumption.
+    reflexivity.
+  Qed.
+
+  Definition nrand (l : list (dist (K:=K))) : nat := length (filter has_rng l).
+
+  (* explicit form: the k-th random distribution gets default_rng(ints(s, k)), position 0 *)
+  Theorem set_random_seed_rngs (E : env (K:=K)) em s tok :
+    exists em', set_random_seed E em (SeedInt s) tok = Ok em' /\
+      same_dists em em' /\
+      (has_rng (d_dist (em_bs em)) = true ->
+         d_rng (em_bs em') = mkRng (Seeded (e_ints E s 0)) 0) /\
+      (has_rng (d_dist (em_loss em)) = true ->
+         d_rng (em_loss em') = mkRng (Seeded (e_ints E s (nrand [d_dist (em_bs em)]))) 0) /\
+      (has_rng (d_dist (em_phase em)) = true ->
+         d_rng (em_phase em') = mkRng (Seeded (e_ints E s (nrand [d_dist (em_bs em); d_dist (em_loss em)]))) 0) /\
+      (has_rng (d_dist (em_bs em)) = false -> em_bs em' = em_bs em) /\
+      (has_rng (d_dist (em_loss em)) = false -> em_loss em' = em_loss em) /\
+      (has_rng (d_dist (em_phase em)) = false -> em_phase em' = em_phase em).
+  Proof.
+    unfold set_random_seed, nrand. simpl. eexists. split; [reflexivity|].
+    unfold reseed, same_dists. simpl.
+    destruct (has_rng (d_dist (em_bs em))) eqn:H1, (has_rng (d_dist (em_loss em))) eqn:H2,
+      (has_rng (d_dist (em_phase em))) eqn:H3; simpl; repeat split; intros; try reflexivity; try discriminate.
+  Qed.
+
+  Lemma mk_const_wf v x : mk_const (K:=K) v = Ok x -> wf_dobj x.
+  Proof. destruct v; simpl; try discriminate. intros H; injection H as <-. intros _. reflexivity. Qed.
+End Seed.
+
+Section SeedMap.
+  Context {K : Type} (o : ops K).
+  (* the mapped circuit (and the final error-model state) is a function of
+     (circuit, distributions, seed): two error models with the same
+     distributions and arbitrary histories give the same result *)
+  Theorem reck_map_seed_determined (E : env (K:=K)) fuel em1 em2 n U hin hout s tok1 tok2 ans endo :
+    wf_em em1 -> wf_em em2 -> same_dists em1 em2 ->
+    reck_map o E fuel em1 n U hin hout (SeedInt s) tok1 ans endo =
+    reck_map o E fuel em2 n U hin hout (SeedInt s) tok2 ans endo.
+  Proof.
+    intros H1 H2 H3. unfold reck_map.
+    rewrite (set_random_seed_determined E em1 em2 s tok1 tok2 H1 H2 H3). reflexivity.
+  Qed.
+End SeedMap.
+
+(* Part 4: the real / complex instance. *)
+From Coq Require Import Reals Lra RealField.
+
+Definition rleb (a b : R) : bool := if Rle_dec a b then true else false.
+Definition reqb (a b : R) : bool := if Req_EM_T a b then true else false.
+Definition rops : ops R := mkOps R 0%R 1%R Rplus Rmult Rminus Ropp Rinv (fun x => x) reqb rleb IZR.
+
+Global Instance rops_star : StarRing rops.
+Proof.
+  constructor; simpl; intros; try reflexivity.
+  constructor; simpl; intros; ring.
+Qed.
+
+Definition cisR (x : R) : R * R := (cos x, sin x).
+Definition Rfloor (x : R) : Z := (up x - 1)%Z.
+
+(* the environment over the reals: cos/sin, sqrt, floor, PI are the real functions;
+   thresholds and the three numpy streams are arbitrary *)
+Definition renv (eps2 prec uprec2 : R) (ints : Z -> nat -> Z) (unif norm : rsrc -> nat -> R) : env (K:=R) :=
+  mkEnv cisR (fun r => (sqrt r, sqrt (1 - r))) sqrt (fun x y => Rfloor (x / y)) PI
+        eps2 prec uprec2 ints unif norm.
+
+Section Reals.
+  Open Scope R_scope.
+
+  Lemma rleb_true a b : rleb a b = true <-> a <= b.
+  Proof. unfold rleb. destruct (Rle_dec a b); split; intros; try assumption; try reflexivity; try discriminate; contradiction. Qed.
+  Lemma rleb_false a b : rleb a b = false <-> b < a.
+  Proof. unfold rleb. destruct (Rle_dec a b); split; intros; try discriminate; try reflexivity; lra. Qed.
+  Lemma kltb_true a b : kltb rops a b = true <-> a < b.
+  Proof. unfold kltb. simpl. rewrite negb_true_iff. apply rleb_false. Qed.
+  Lemma kltb_false a b : kltb rops a b = false <-> b <= a.
+  Proof. unfold kltb. simpl. rewrite negb_false_iff. apply rleb_true. Qed.
+
+  Lemma cisR_unit x : fst (cisR x) * fst (cisR x) + snd (cisR x) * snd (cisR x) = 1.
+  Proof. simpl. pose proof (sin2_cos2 x) as H. unfold Rsqr in H. lra. Qed.
+
+  Lemma cisR_0 : cisR 0 = (1, 0).
+  Proof. unfold cisR. rewrite cos_0, sin_0. reflexivity. Qed.
+
+  Lemma cisR_add x y : cisR (x + y) = kmul (cplx rops) (cisR x) (cisR y).
+  Proof. unfold cisR. simpl. unfold cmul. simpl. rewrite cos_plus, sin_plus. f_equal; ring. Qed.
+
+  Lemma cisR_double x : kmul (cplx rops) (cisR (half rops x)) (cisR (half rops x)) = cisR x.
+  Proof.
+    rewrite <- cisR_add. f_equal. unfold half, two. simpl. field.
+  Qed.
+
+  Lemma cisR_period_nat x (k : nat) : cisR (x + 2 * INR k * PI) = cisR x.
+  Proof. unfold cisR. rewrite cos_period, sin_period. reflexivity. Qed.
+
+  Lemma cisR_period x (k : Z) : cisR (x - IZR k * (2 * PI)) = cisR x.
+  Proof.
+    destruct (Z_le_gt_dec 0 k) as [Hk|Hk].
+    - rewrite <- (cisR_period_nat (x - IZR k * (2 * PI)) (Z.to_nat k)).
+      f_equal. rewrite INR_IZR_INZ, Z2Nat.id by assumption. ring.
+    - rewrite <- (cisR_period_nat x (Z.to_nat (- k))).
+      f_equal. rewrite INR_IZR_INZ, Z2Nat.id by lia. rewrite opp_IZR. ring.
+  Qed.
+
+  Lemma Rfloor_spec x : IZR (Rfloor x) <= x < IZR (Rfloor x) + 1.
+  Proof. unfold Rfloor. rewrite minus_IZR. destruct (archimed x) as [H1 H2]. lra. Qed.
+
+  Section Env.
+    Variables (eps2 prec uprec2 : R) (ints : Z -> nat -> Z) (unif norm : rsrc -> nat -> R).
+    Let E := renv eps2 prec uprec2 ints unif norm.
+
+    Lemma two_pi_R : two_pi rops E = 2 * PI.
+    Proof. unfold two_pi, two. simpl. ring. Qed.
+
+    Lemma pmod_R x : pmod rops E x = x - IZR (Rfloor (x / (2 * PI))) * (2 * PI).
+    Proof. unfold pmod. rewrite two_pi_R. reflexivity. Qed.
+
+    (* float % (2 pi), as the real modulo: the programmed value lies in [0, 2 pi) *)
+    Lemma pmod_range x : 0 <= pmod rops E x < 2 * PI.
+    Proof.
+      rewrite pmod_R. pose proof PI_RGT_0 as Hpi.
+      destruct (Rfloor_spec (x / (2 * PI))) as [H1 H2].
+      set (k := IZR (Rfloor (x / (2 * PI)))) in *.
+      assert (Hx : x = (x / (2 * PI)) * (2 * PI)) by (field; lra).
+      split.
+      - assert (k * (2 * PI) <= (x / (2 * PI)) * (2 * PI)) by (apply Rmult_le_compat_r; lra). lra.
+      - assert ((x / (2 * PI)) * (2 * PI) < (k + 1) * (2 * PI)) by (apply Rmult_lt_compat_r; lra). lra.
+    Qed.
+
+    Lemma cisR_pmod x : cisR (pmod rops E x) = cisR x.
+    Proof. rewrite pmod_R. apply cisR_period. Qed.
+  End Env.
+End Reals.
+
+Section Reals2.
+  Open Scope R_scope.
+  Variables (eps2 prec uprec2 : R) (ints : Z -> nat -> Z) (unif norm : rsrc -> nat -> R).
+  Let E := renv eps2 prec uprec2 ints unif norm.
+  Notation Cr := (cplx rops).
+
+  Lemma Hcis_R : forall x, kadd rops (kmul rops (fst (e_cis E x)) (fst (e_cis E x)))
+                                (kmul rops (snd (e_cis E x)) (snd (e_cis E x))) = k1 rops.
+  Proof. intros x. apply cisR_unit. Qed.
+
+  (* bs_matrix(theta, phi) is unitary for all real theta, phi *)
+  Theorem bs_unitary_R n m1 m2 theta phi :
+    (m1 < n)%nat -> (m2 < n)%nat -> m1 <> m2 -> unitary Cr n (bs_matrix rops E m1 m2 theta phi).
+  Proof. intros. apply (bs_matrix_unitary (o:=rops) E Hcis_R); assumption. Qed.
+
+  Lemma half_amp_R : e_bsamp E (/ 2) = (sqrt (/ 2), sqrt (/ 2)).
+  Proof. simpl. replace (1 - / 2) with (/ 2) by lra. reflexivity. Qed.
+  Lemma half_amp_sq : sqrt (/ 2) * sqrt (/ 2) + sqrt (/ 2) * sqrt (/ 2) = 1.
+  Proof. rewrite sqrt_sqrt by lra. lra. Qed.
+
+  (* barrier; ps(m+1, phi); bs(m); ps(m, theta); bs(m)  compiles to the flipped bs_matrix(theta, phi),
+     m = n - j - 2, for phase shifters whose amplitude is exp(i theta), exp(i phi) *)
+  Theorem unit_cell_R n j theta phi (pt pp : phase (K:=R)) :
+    (S j < n)%nat -> ph_amp pt = cisR theta -> ph_amp pp = cisR phi ->
+    meq n (compile rops E n [CBarrier [(n - j - 2)%nat; S (n - j - 2)]; CPS (S (n - j - 2)) pp;
+                             CBS (n - j - 2) (S (n - j - 2)) (/ 2); CPS (n - j - 2) pt;
+                             CBS (n - j - 2) (S (n - j - 2)) (/ 2)])
+          (flip n (bs_matrix rops E j (S j) theta phi)).
+  Proof.
+    intros Hj Hpt Hpp.
+    eapply (unit_cell_model (o:=rops) E) with (c := cos (half rops theta)) (s := sin (half rops theta))
+                                            (e := cisR phi) (hh := sqrt (/ 2)); try assumption.
+    - apply (cisR_unit (half rops theta)).
+    - apply half_amp_R.
+    - apply half_amp_sq.
+    - rewrite Hpt. symmetry. apply cisR_double.
+  Qed.
+
+  Definition default_em (g1 g2 g3 : rng) : emodel (K:=R) :=
+    mkEm (mkDobj (DConst (/ 2)) g1) (mkDobj (DConst 0) g2) (mkDobj (DConst 0) g3).
+
+  Definition comp_ok (n : nat) (c : Reck.comp (K:=R)) : Prop :=
+    match c with
+    | CBarrier ms => Forall (fun m => (m < n)%nat) ms
+    | CPS m p => (m < n)%nat /\ 0 <= ph_val p < 2 * PI /\ ph_amp p = cisR (ph_val p)
+    | CBS m1 m2 r => m2 = S m1 /\ (m2 < n)%nat /\ r = / 2
+    | CLoss _ _ => False
+    end.
+
+  Lemma dphase_ok v amp :
+    amp = cisR v ->
+    0 <= ph_val (dphase (o:=rops) E 0 v amp) < 2 * PI /\
+    ph_amp (dphase (o:=rops) E 0 v amp) = cisR (ph_val (dphase (o:=rops) E 0 v amp)).
+  Proof.
+    intros ->. unfold dphase. cbn [ph_val ph_amp]. split; [apply pmod_range|].
+    change (e_cis E 0) with (cisR 0). unfold E. rewrite cisR_pmod. rewrite cisR_0.
+    change (kadd rops v 0) with (v + 0). rewrite Rplus_0_r.
+    unfold cisR. simpl. unfold cmul. simpl. f_equal; ring.
+  Qed.
+
+  Lemma default_spec_ok n (dc : decomp (K:=R)) :
+    Forall (fun r => (nr_i r + nr_j r + 2 <= n)%nat) (dc_recs dc) -> length (dc_end dc) = n ->
+    Forall (comp_ok n) (default_spec (o:=rops) E n (/ 2) 0 dc).
+  Proof.
+    intros Hb Hlen. unfold default_spec. apply Forall_app. split; [|apply Forall_app; split].
+    - apply Forall_forall. intros c Hc. apply in_flat_map in Hc as [p [Hp Hc]].
+      apply in_map_iff in Hp as [r [<- Hr]]. rewrite Forall_forall in Hb. specialize (Hb r Hr).
+      unfold dcell, dprec in Hc. cbn [pr_j pr_phi pr_theta] in Hc.
+      destruct Hc as [<-|[<-|[<-|[<-|[<-|[]]]]]]; simpl comp_ok.
+      + repeat constructor; lia.
+      + split; [lia|]. apply dphase_ok. reflexivity.
+      + repeat split; lia.
+      + split; [lia|]. apply dphase_ok. exact (cisR_double (nr_theta r)).
+      + repeat split; lia.
+    - constructor; [|constructor]. simpl. apply Forall_forall. intros m Hm. apply in_seq in Hm. lia.
+    - unfold end_spec. apply Forall_forall. intros c Hc. apply in_map_iff in Hc as [[i p] [<- Hip]].
+      pose proof (in_combine_l _ _ _ _ Hip) as Hi. pose proof (in_combine_r _ _ _ _ Hip) as Hp.
+      apply in_seq in Hi. apply in_map_iff in Hp as [a [<- _]]. simpl.
+      split; [lia|]. apply dphase_ok. reflexivity.
+  Qed.
+
+  (* Reck.map with the default error model: whenever the decomposition passed its
+     own checks and the nulled matrix is diagonal with entries exp(i end_phase),
+     the compiled mapped circuit equals U, the heralds are copied, every
+     component is a barrier, an adjacent-mode 50:50 beam splitter or a phase
+     shifter programmed with a value in [0, 2 pi) *)
+  Theorem reck_reconstructs_R fuel n U hin hout seed tok ans endo g1 g2 g3 dc :
+    seed <> SeedBad ->
+    reck_decomposition rops E n (tab Cr n (flip n U)) ans endo = Ok dc ->
+    (forall a b, (a < n)%nat -> (b < n)%nat -> a <> b -> dc_nulled dc a b = (0, 0)) ->
+    (forall a, (a < n)%nat -> dc_nulled dc a a = cisR (endo a)) ->
+    Forall2 (fun x y : nat * Z => snd x = snd y) hin hout ->
+    exists spec,
+      reck_map rops E fuel (default_em g1 g2 g3) n U hin hout seed tok ans endo
+        = Ok (mkCirc n spec hin hout, default_em g1 g2 g3) /\
+      meq n (compile rops E n spec) U /\
+      Forall (comp_ok n) spec.
+  Proof.
+    intros Hseed Hdc Hoff Hdiag Hher.
+    exists (default_spec (o:=rops) E n (/ 2) 0 dc).
+    destruct (reck_map_default (o:=rops) E Hcis_R fuel n U hin hout seed tok ans endo g1 g2 g3
+                (/ 2) (sqrt (/ 2)) 0 0 dc) as [H1 H2]; try assumption.
+    - apply half_amp_R.
+    - apply half_amp_sq.
+    - change (e_cis E 0) with (cisR 0). apply cisR_0.
+    - unfold in01. simpl. rewrite andb_true_iff, !rleb_true. lra.
+    - unfold in01. simpl. rewrite andb_true_iff, !rleb_true. lra.
+    - unfold kgtb. simpl. rewrite negb_false_iff, rleb_true. lra.
+    - split; [exact H1|]. split; [exact H2|].
+      apply reck_decomposition_ok in Hdc as [Edc _]. apply default_spec_ok.
+      + rewrite Edc. cbn [dc_recs]. apply decomp_loop_bound.
+      + rewrite Edc. cbn [dc_end]. rewrite map_length, seq_length. reflexivity.
+  Qed.
+End Reals2.
+
+(* Part 5: distributions over the reals: every returned value lies in the declared bounds. *)
+Section Draws.
+  Open Scope R_scope.
+  Variable E : env (K:=R).
+
+  Definition in_bounds (d : Reck.dist (K:=R)) (v : R) : Prop :=
+    match dist_lo d with Some a => a <= v | None => True end /\
+    match dist_hi d with Some b => v <= b | None => True end.
+  (* what the constructors guarantee *)
+  Definition dist_valid (d : Reck.dist (K:=R)) : Prop :=
+    match d with DTopHat lo hi => lo <= hi | _ => True end.
+
+  Lemma gauss_loop_bounds fuel src c d lo hi : forall pos v pos',
+    gauss_loop rops E fuel src pos c d lo hi = Ok (v, pos') ->
+    match lo with Some a => a <= v | None => True end /\
+    match hi with Some b => v <= b | None => True end /\ (pos < pos')%nat.
+  Proof.
+    induction fuel as [|fuel IH]; intros pos v pos' H; simpl in H; [discriminate|].
+    destruct (below rops lo _ || above rops hi _) eqn:Hb.
+    - apply IH in H. destruct H as (A & B & C). repeat split; try assumption. lia.
+    - injection H as <- <-. apply orb_false_iff in Hb as [Hl Hh]. repeat split; try lia.
+      + destruct lo as [a|]; [|exact I]. simpl in Hl. apply kltb_false in Hl. exact Hl.
+      + destruct hi as [b|]; [|exact I]. simpl in Hh. apply kltb_false in Hh. exact Hh.
+  Qed.
+
+  (* Constant / TopHat / bounded Gaussian with resampling: for every raw stream
+     (TopHat needs Generator.random() in [0,1)), every value returned lies within
+     the declared bounds; the distribution and the generator source are unchanged *)
+  Theorem draws_in_bounds fuel (x x' : dobj (K:=R)) v :
+    dist_valid (d_dist x) -> (forall src k, 0 <= e_unif E src k < 1) ->
+    dist_value rops E fuel x = Ok (v, x') ->
+    in_bounds (d_dist x) v /\ d_dist x' = d_dist x /\ r_src (d_rng x') = r_src (d_rng x) /\
+    (r_pos (d_rng x) <= r_pos (d_rng x'))%nat.
+  Proof.
+    intros Hv Hu H. unfold dist_value in H. destruct x as [d g]. simpl in *.
+    destruct d as [c|lo hi|c d lo hi]; simpl in *.
+    - injection H as <- <-. unfold in_bounds. simpl. repeat split; try lra; lia.
+    - injection H as <- <-. unfold in_bounds. simpl. specialize (Hu (r_src g) (r_pos g)).
+      repeat split; try lia; nra.
+    - destruct (kltb rops d 0); [discriminate|].
+      destruct (gauss_loop rops E fuel (r_src g) (r_pos g) c d lo hi) as [[v0 p0]|e] eqn:Hg; simpl in H; [|discriminate].
+      injection H as <- <-. apply gauss_loop_bounds in Hg as (A & B & C).
+      unfold in_bounds. simpl. repeat split; try assumption. lia.
+  Qed.
+
+  Lemma mk_tophat_valid lo hi g x : mk_tophat rops lo hi g = Ok x -> dist_valid (d_dist x).
+  Proof.
+    destruct lo as [a| |], hi as [b| |]; simpl; try discriminate.
+    destruct (kltb rops b a) eqn:Hk; [discriminate|]. intros H; injection H as <-. simpl.
+    apply kltb_false in Hk. exact Hk.
+  Qed.
+  Lemma mk_gauss_valid c d lo hi g x : mk_gauss rops c d lo hi g = Ok x -> dist_valid (d_dist x).
+  Proof.
+    destruct c, d, lo, hi; simpl; try discriminate;
+      try (destruct (kltb rops _ _); try discriminate); intros H; injection H as <-; exact I.
+  Qed.
+  Lemma mk_const_valid v x : mk_const (K:=R) v = Ok x -> dist_valid (d_dist x).
+  Proof. destruct v; simpl; try discriminate. intros H; injection H as <-. exact I. Qed.
+End Draws.
+
+(* Part 6: one nulling step of the model. *)
+Section NullModel.
+  Context {K : Type} {o : ops K} {SR : StarRing o}.
+  Let Rr := sr_ring (o:=o).
+  Add Ring Kr3 : Rr.
+  Notation C := (K * K)%type.
+  Notation co := (cplx o).
+  Local Notation cmat := (@mat C).
+
+  (* the nulling equation for amplitudes (c, s, e):  c u_{i,j+1} = conj e . s . u_{ij} *)
+  Definition null_eq_amp (c s : K) (e u0 u1 : C) : Prop :=
+    kmul co (cre o c) u1 = kmul co (kmul co (kconj co e) (cre o s)) u0.
+
+  Lemma null_step_model n (U : cmat) j r c s (e : C) :
+    S j < n -> r < n -> null_eq_amp c s e (U r j) (U r (S j)) ->
+    null_update o n U (bs_amp o j (S j) c s e) r j = k0 co.
+  Proof.
+    intros Hj Hr H. unfold null_update. rewrite tab_spec by lia. unfold bs_amp.
+    apply (null_step_zero (o:=co) (cre o c) (cre o s) e (gph o c s)); try assumption; apply cre_conj.
+  Qed.
+
+  (* value of the target without assuming the equation (the |u| < 1e-20 branch leaves -conj g . u) *)
+  Lemma null_step_model_target n (U : cmat) j r c s (e : C) :
+    S j < n -> r < n ->
+    null_update o n U (bs_amp o j (S j) c s e) r j =
+    kmul co (kconj co (gph o c s))
+         (ksub co (kmul co (cre o c) (U r (S j))) (kmul co (kmul co (kconj co e) (cre o s)) (U r j))).
+  Proof.
+    intros Hj Hr. unfold null_update. rewrite tab_spec by lia. unfold bs_amp.
+    apply (null_step_target (o:=co) (cre o c) (cre o s) e (gph o c s)); try assumption; apply cre_conj.
+  Qed.
+
+  Lemma null_keep_model n (U : cmat) j r x c s (e : C) :
+    S j < n -> r < n -> x < n -> U r x = k0 co ->
+    (x = j \/ x = S j -> U r j = k0 co /\ U r (S j) = k0 co) ->
+    null_update o n U (bs_amp o j (S j) c s e) r x = k0 co.
+  Proof.
+    intros Hj Hr Hx H0 Hp. unfold null_update. rewrite tab_spec by lia. unfold bs_amp.
+    apply (null_step_keeps_zero (o:=co)); assumption.
+  Qed.
+
+  Lemma null_unitary_model n (U : cmat) j c s (e : C) :
+    S j < n -> kadd o (kmul o c c) (kmul o s s) = k1 o -> kmul co e (kconj co e) = k1 co ->
+    unitary co n U -> unitary co n (null_update o n U (bs_amp o j (S j) c s e)).
+  Proof.
+    intros Hj Hcs He HU. unfold null_update. apply unitary_tab, unitary_mmul; [exact HU|].
+    apply unitary_madj. apply bs_amp_unitary; try assumption; lia.
+  Qed.
+End NullModel.
+
+Section NullReal.
+  Open Scope R_scope.
+  Notation Cr := (cplx rops).
+  Definition cabsR (z : R * R) : R := sqrt (fst z * fst z + snd z * snd z).
+  (* contract of np.angle / np.abs:  z = |z| exp(i angle z) *)
+  Definition angle_ok (z : R * R) (a : R) : Prop := z = (cabsR z * cos a, cabsR z * sin a).
+
+  Lemma cabsR_pos z : z <> (0, 0) -> 0 < cabsR z.
+  Proof.
+    intros Hz. unfold cabsR. apply sqrt_lt_R0. destruct z as [x y]. simpl.
+    destruct (Req_dec x 0) as [->|Hx]; [destruct (Req_dec y 0) as [->|Hy]; [contradiction Hz; reflexivity|]|]; nra.
+  Qed.
+
+  (* the formulas of the code, theta = 2 arctan(|u1| / |u0|), phi = angle u0 - angle u1,
+     satisfy the nulling equation whenever u0 <> 0 *)
+  Theorem code_answer_nulls (u0 u1 : R * R) a0 a1 :
+    u0 <> (0, 0) -> angle_ok u0 a0 -> angle_ok u1 a1 ->
+    let theta := 2 * atan (cabsR u1 / cabsR u0) in
+    let phi := a0 - a1 in
+    null_eq_amp (o:=rops) (cos (half rops theta)) (sin (half rops theta)) (cisR phi) u0 u1.
+  Proof.
+    intros Hz H0 H1 theta phi. pose proof (cabsR_pos u0 Hz) as Hr0.
+    set (r0 := cabsR u0) in *. set (r1 := cabsR u1) in *.
+    assert (Hh : half rops theta = atan (r1 / r0)) by (unfold half, two, theta; simpl; field).
+    unfold null_eq_amp. rewrite Hh, sin_atan, cos_atan. set (t := r1 / r0).
+    assert (Hw : 0 < sqrt (1 + t²)) by (apply sqrt_lt_R0; unfold Rsqr; nra).
+    set (w := sqrt (1 + t²)) in *.
+    rewrite H0, H1. fold r0 r1. unfold phi, cisR. rewrite cos_minus, sin_minus.
+    assert (Ht : t * r0 = r1) by (unfold t; field; lra).
+    pose proof (sin2_cos2 a0) as Hsc. unfold Rsqr in Hsc.
+    unfold cre. simpl. unfold cmul, cconj. simpl. f_equal.
+    - transitivity (/ w * r1 * cos a1); [field; lra|].
+      transitivity (/ w * (t * r0) * cos a1 * (sin a0 * sin a0 + cos a0 * cos a0)); [rewrite Hsc, Ht; ring|].
+      field. lra.
+    - transitivity (/ w * r1 * sin a1); [field; lra|].
+      transitivity (/ w * (t * r0) * sin a1 * (sin a0 * sin a0 + cos a0 * cos a0)); [rewrite Hsc, Ht; ring|].
+      field. lra.
+  Qed.
+
+  (* the |u_ij| < 1e-20 branch, theta = pi, phi = 0, satisfies it when u_ij = 0 *)
+  Theorem zero_branch_nulls (u1 : R * R) :
+    null_eq_amp (o:=rops) (cos (half rops PI)) (sin (half rops PI)) (cisR 0) (0, 0) u1.
+  Proof.
+    assert (Hh : half rops PI = PI / 2) by (unfold half, two; simpl; field).
+    unfold null_eq_amp. rewrite Hh, cos_PI2, sin_PI2, cisR_0. destruct u1 as [x y].
+    unfold cre. simpl. unfold cmul, cconj. simpl. f_equal; ring.
+  Qed.
+End NullReal.
